@@ -212,6 +212,32 @@ class C14(Check):
             self.violated("Q2", SIM, q, "no-skip-before-simulate", loop, "a step can be skipped before it is simulated")
         else:
             self.holds("Q2", SIM, q, "no-skip-before-simulate", loop, "no conditional exit precedes the simulation of a step")
+        # the loop is left early only when the simulation has failed (nothing stored / an error recorded)
+        FAIL = {"self.variables is None": True, "self.variables is not None": False, "len(self._errors) > 0": True, "len(self._errors) != 0": True, "self._errors": True,
+                "len(self._errors) == 0": False, "not self._errors": False, "(variables := self.variables) is None": True}
+        from ..core import Scope
+
+        sc = Scope(fn)
+        bad_exit = None
+        n_exits = 0
+        for x in walk_no_nested(loop):
+            if not isinstance(x, (ast.Break, ast.Continue, ast.Return)):
+                continue
+            n_exits += 1
+            why_ok = False
+            for iff, fld in sc.enclosing_with_field(x, ast.If):
+                if not any(iff is y for y in ast.walk(loop)):
+                    continue
+                t_ = norm(iff.test)
+                if t_ in FAIL and ((fld == "body") == FAIL[t_]):
+                    why_ok = True
+            if not why_ok:
+                bad_exit = x
+        if bad_exit is not None:
+            self.violated("Q2", SIM, q, "early-exit-only-on-failure", bad_exit, f"`{norm(bad_exit)}` leaves or skips within the protocol loop although the simulation has not failed: later steps are not simulated",
+                          witness="a two-step protocol: only the first step is simulated, the result ends at the first boundary")
+        else:
+            self.holds("Q2", SIM, q, "early-exit-only-on-failure", loop, f"{n_exits} early exit(s), each only when nothing is stored / an error was recorded")
         if name == "simulate_protocol":
             # the end handed to simulate() in iteration k is <start taken once> + <cumulative end k>
             good = True
